@@ -23,6 +23,24 @@ def packet_model(v, wd, deep):
     log(f"[C10] PacketWriterSpec: holds as built ({out[0]['states']} states); the unguarded arithmetic violates NoPanic and termination")
 
 
+def lifecycle_model(v, wd):
+    """LifecycleSpec: call-order protocol of the writer objects.  Every finished object is listed once, a reader sees only
+    finished objects, a top-level finalize that reports Ok leaves the complete file; a second finalize of a child that lists
+    the object again (before D-32) and a finalize retried after a failure while writing (before D-35) have counterexamples."""
+    out = []
+    for variant, expect_ok in (("asbuilt", True), ("add_again", False), ("retry_writes", False)):
+        cfg = os.path.join(wd, f"lifecycle_{variant}.cfg")
+        vlib.write_cfg(cfg, spec="Spec", constants={"MaxObjects": 3, "Variant": f'"{variant}"'}, invariants=["ListedOnce", "CommittedSane", "OkMeansComplete"])
+        r = vlib.tlc_mc("LifecycleSpec", cfg, os.path.join(wd, f"lifecycle_{variant}.out"), workers=2, timeout=300)
+        ok = r["ok"] and r["violated"] is None
+        out.append({"variant": variant, "holds": ok, "states": r["distinct"], "violated": r["violated"]})
+        if ok != expect_ok:
+            raise vlib.ToolError(f"LifecycleSpec: variant '{variant}' expected {'to hold' if expect_ok else 'to be violated'} (see {r['out']})")
+        v.add(states=r["distinct"], transitions=r["generated"])
+    v.cov["lifecycle_model"] = out
+    log(f"[C10] LifecycleSpec: holds as built ({out[0]['states']} states); 'add_again' violates {out[1]['violated']}, 'retry_writes' violates {out[2]['violated']}")
+
+
 def run(tier, seed, args):
     v = vlib.Verdict("C10", tier, seed, "model_checking")
     wd = vlib.workdir("C10")
@@ -31,6 +49,7 @@ def run(tier, seed, args):
         filecommon.validate_runs(v, wd, filecommon.split_runs(args.replay), "replay", focus=("C10",))
         return v.finish()
     packet_model(v, wd, tier == "thorough")
+    lifecycle_model(v, wd)
     if tier == "thorough":
         vlib.tlaps(v, wd, "PacketLemmas", ["PacketFits"])
     ps = progs.c10_programs(seed, tier)
